@@ -4,15 +4,15 @@
 -/
 import TB.Spec.CostSpec
 import TB.Lemmas.Cost
-namespace TB.Cost
-open TB
+namespace TB
+open TB.Cost
 
 /-- the step-counting decoder computes exactly what the model decoder computes -/
-theorem C09_cost_faithful (inp : Bytes) : (decodeC inp).1 = decode inp := by
-  sorry
+theorem C09_cost_faithful (inp : Bytes) : (decodeC inp).1 = decode inp :=
+  decodeC_fst inp
 
-/-- and it never takes more than `8·|inp| + 8` steps -/
-theorem C09_decode_cost_linear (inp : Bytes) : (decodeC inp).2 ≤ 8 * inp.length + 8 := by
-  sorry
+/-- and it never takes more than `2·|inp| + 2` steps (attained by the empty input) -/
+theorem C09_decode_cost_linear (inp : Bytes) : (decodeC inp).2 ≤ 2 * inp.length + 2 :=
+  decodeC_cost inp
 
-end TB.Cost
+end TB
